@@ -166,9 +166,12 @@ class ProtocolContext:
                 self.is_sending, bool
             ), f"{self}: Coding error"  # TODO: remove
 
-        def effect_state(timed_out: bool) -> None:
+        def effect_state(timed_out: bool, state: _ProtocolStateT) -> None:
             """Take any actions indicated by state, and optionally set expiry timer."""
             # a separate function, so can be spawned off with call_soon()
+
+            if self._state is not state:  # superseded by a later set_state()
+                return
 
             assert isinstance(
                 self.is_sending, bool
@@ -176,6 +179,7 @@ class ProtocolContext:
 
             if timed_out:
                 assert self._cmd is not None, f"{self}: Coding error"  # mypy hint
+                self._cmd_tx_count += 1  # only now, as the re-send was not superseded
                 self._send_cmd(self._cmd, is_retry=True)
 
             if isinstance(self._state, IsInIdle):
@@ -262,7 +266,7 @@ class ProtocolContext:
             assert isinstance(
                 self._cmd_tx_count, int
             ), f"{self}: Coding error"  # mypy hint
-            self._cmd_tx_count += 1
+            # NOTE: tx_count is incremented by effect_state(), when cmd is re-sent
 
         elif isinstance(self._state, WantEcho):
             assert self._qos is not None, f"{self}: Coding error"  # mypy hint
@@ -276,7 +280,9 @@ class ProtocolContext:
         assert isinstance(self.is_sending, bool)  # TODO: remove
 
         # remaining code spawned off with a call_soon(), so early return to caller
-        self._loop.call_soon_threadsafe(effect_state, timed_out)  # calls expire_state
+        self._loop.call_soon_threadsafe(
+            effect_state, timed_out, self._state
+        )  # calls expire_state
 
         if not isinstance(self._state, WantRply):
             _LOGGER.debug("AFTER. = %s", self)
